@@ -392,44 +392,54 @@ def _bytes_evidence(fn, loop_for, expr):
             for c in ast.walk(v):
                 if isinstance(c, ast.Call) and isinstance(c.func, ast.Attribute) and c.func.attr in BYTES_ONLY_CALLS:
                     return 'the value comes from %s()' % c.func.attr
-    # dominating tests: If statements whose body contains the loop
+    def positive(t):
+        """the test holds only for a bytes message"""
+        text = ast.unparse(t)
+        tn = {y.id for y in ast.walk(t) if isinstance(y, ast.Name)}
+        if isinstance(t, ast.Compare) and len(t.ops) == 1 and isinstance(t.ops[0], (ast.Eq, ast.Is)) and \
+                'BINARY' in text and tn & names:
+            return text
+        if isinstance(t, ast.Call) and isinstance(t.func, ast.Name) and t.func.id == 'isinstance' and \
+                len(t.args) == 2 and tn & names:
+            if any(k in ast.unparse(t.args[1]) for k in ('bytes', 'Bytes', 'DataReceived', 'bytearray', 'memoryview')):
+                return text
+        if isinstance(t, ast.Name) and t.id in names and 'bytes' in t.id:
+            return 'the truth of %s' % t.id
+        return None
+
+    def negative(t):
+        """the test holds for everything that is not a bytes message"""
+        if isinstance(t, ast.UnaryOp) and isinstance(t.op, ast.Not):
+            return positive(t.operand)
+        if isinstance(t, ast.Compare) and len(t.ops) == 1 and isinstance(t.ops[0], (ast.NotEq, ast.IsNot)) and \
+                'BINARY' in ast.unparse(t) and {y.id for y in ast.walk(t) if isinstance(y, ast.Name)} & names:
+            return ast.unparse(t)
+        return None
+
+    # dominating tests: If statements whose body contains the loop; and early exits for everything else before the
+    # hand-off in an enclosing block
     x = loop_for
     while x in parents:
         par = parents[x]
         if isinstance(par, ast.If) and x in par.body:
-            t = par.test
-            text = ast.unparse(t)
-            tn = {y.id for y in ast.walk(t) if isinstance(y, ast.Name)}
-            root_names = set(names)
-            # names the message was derived from (msg.data -> msg)
-            if isinstance(t, ast.Compare) and len(t.ops) == 1 and isinstance(t.ops[0], (ast.Eq, ast.Is)) and \
-                    'BINARY' in text and tn & root_names:
-                return 'guarded by %s' % text
-            if isinstance(t, ast.Call) and isinstance(t.func, ast.Name) and t.func.id == 'isinstance' and \
-                    len(t.args) == 2 and tn & root_names:
-                cls_text = ast.unparse(t.args[1])
-                if any(k in cls_text for k in ('bytes', 'Bytes', 'DataReceived', 'bytearray', 'memoryview')):
-                    return 'guarded by %s' % text
-            if isinstance(t, ast.Name) and t.id in root_names and 'bytes' in t.id:
-                return 'guarded by the truth of %s' % t.id
+            why = positive(par.test)
+            if why:
+                return 'guarded by %s' % why
+        if isinstance(par, ast.If) and x in par.orelse:
+            why = negative(par.test)
+            if why:
+                return 'in the else branch of %s' % why
+        body = getattr(par, 'body', None)
+        if isinstance(body, list) and x in body:
+            for st in body[:body.index(x)]:
+                if isinstance(st, ast.If) and st.body and not st.orelse and \
+                        isinstance(st.body[-1], (ast.Continue, ast.Return, ast.Raise)):
+                    why = negative(st.test)
+                    if why:
+                        return 'everything that is not bytes is skipped first (%s)' % why
         if isinstance(par, (ast.FunctionDef, ast.AsyncFunctionDef)):
             break
         x = par
-    # an early `continue` / `return` for everything that is not bytes, before the hand-off in the same block
-    blk = parents.get(loop_for)
-    body = getattr(blk, 'body', None)
-    if isinstance(body, list) and loop_for in body:
-        for st in body[:body.index(loop_for)]:
-            if isinstance(st, ast.If) and st.body and isinstance(st.body[-1], (ast.Continue, ast.Return)):
-                t = st.test
-                if isinstance(t, ast.UnaryOp) and isinstance(t.op, ast.Not) and isinstance(t.operand, ast.Name) and \
-                        t.operand.id in names and 'bytes' in t.operand.id:
-                    return 'everything but a non-empty %s is skipped first' % t.operand.id
-                if isinstance(t, ast.UnaryOp) and isinstance(t.op, ast.Not) and isinstance(t.operand, ast.Call) and \
-                        isinstance(t.operand.func, ast.Name) and t.operand.func.id == 'isinstance' and \
-                        {y.id for y in ast.walk(t.operand.args[0]) if isinstance(y, ast.Name)} & names and \
-                        any(k in ast.unparse(t.operand.args[1]) for k in ('bytes', 'Bytes', 'bytearray')):
-                    return 'everything that is not bytes is skipped first (%s)' % ast.unparse(t)
     # a generator in the same class that yields only under such a guard (aiohttp server: _message_generator)
     return None
 
